@@ -99,6 +99,11 @@ inductive Phase where
   | closed
   deriving DecidableEq, Repr, Inhabited
 
+/-- no connection is using this peer address -/
+def Phase.isFree : Phase → Bool
+  | .absent | .closed => true
+  | _ => false
+
 structure St where
   conn : Nat → Phase
   mute : Nat → Bool               -- the next write to this connection fails
@@ -376,11 +381,11 @@ def handle (S : Settings) (s : St) (c : Nat) (m : Msg) (o : Oracle) : St × List
 
 def deliver (S : Settings) (s : St) : Ev → St × List Out
   | .connect c =>
-    match s.conn c with
-    | .absent =>
+    -- a new connection (a peer address may be used again once its earlier connection is closed)
+    if (s.conn c).isFree then
       if S.required ≤ s.slots then (s.setConn c .closed, [.refused c])
-      else ({ (s.setConn c .reading) with slots := s.slots + 1 }, [])
-    | _ => (s, [])
+      else ({ (s.setConn c .reading) with slots := s.slots + 1, mute := fun d => if d = c then false else s.mute d }, [])
+    else (s, [])
   | .msg c m o =>
     match s.conn c with
     | .reading => handle S s c m o
